@@ -84,7 +84,7 @@ func checkC16(p *core.Program, r *core.Report) {
 
 	mgr := p.Named("mdns", "MdnsManager")
 	ann := p.Method("mdns", "MdnsManager", "AnnounceMdnsEntry")
-	proc := p.Method("mdns", "MdnsManager", "processMdnsEntry")
+	proc := resolverCallback(p)
 	entryT := p.Named("api", "MdnsEntry")
 	if mgr == nil || ann == nil || proc == nil || entryT == nil {
 		r.Unresolved(R1, "mdns.MdnsManager / AnnounceMdnsEntry / processMdnsEntry / api.MdnsEntry")
@@ -329,7 +329,16 @@ func checkC16(p *core.Program, r *core.Report) {
 		r.Fail(R1, key, p.Pos(in.Pos()), "the auto-accept flag is not derived as register == \"true\"")
 	})
 	// categories separator/base
-	catFn := p.Method("mdns", "MdnsManager", "deviceCategoriesString")
+	var catFn *ssa.Function
+	for _, fn := range p.FuncsOf("mdns") {
+		if fn.Signature.Results().Len() == 1 && fn.Signature.Params().Len() == 1 {
+			if st, ok := fn.Signature.Params().At(0).Type().Underlying().(*types.Slice); ok && core.TypeIs(st.Elem(), apiPath, "DeviceCategoryType") {
+				if b, ok := fn.Signature.Results().At(0).Type().Underlying().(*types.Basic); ok && b.Info()&types.IsString != 0 {
+					catFn = fn
+				}
+			}
+		}
+	}
 	wsep, wfmt := "", ""
 	if catFn != nil {
 		core.EachInstr(catFn, func(in ssa.Instruction) {
@@ -402,7 +411,20 @@ func checkC16(p *core.Program, r *core.Report) {
 			}
 			v, truth := core.Truth(i.Cond, idx)
 			c, ok := v.(*ssa.Call)
-			return ok && !truth && c.Call.StaticCallee() != nil && c.Call.StaticCallee().Name() == "isServiceAnnounced"
+			if !ok || truth || c.Call.StaticCallee() == nil {
+				return false
+			}
+			// a getter of a bool field of the manager (the "is announced" flag)
+			callee := c.Call.StaticCallee()
+			isGetter := false
+			core.EachInstr(callee, func(y ssa.Instruction) {
+				if ret, ok := y.(*ssa.Return); ok && len(ret.Results) == 1 && ret.Block() != callee.Recover {
+					if f, b := core.LoadedField(core.ResultOf(ret, 0)); f != nil && b != nil && core.NamedOf(b.Type()) == mgr {
+						isGetter = true
+					}
+				}
+			})
+			return isGetter
 		}
 		var st ssa.Instruction
 		core.EachInstr(saa, func(in ssa.Instruction) {
@@ -627,15 +649,10 @@ func checkC16(p *core.Program, r *core.Report) {
 	})
 	r.Counts["qr_sources"] = nsrc
 	// keys upper-cased
-	kv := p.Method("mdns", "MdnsManager", "safeQRCodeKeyValue")
-	upper := false
-	if kv != nil {
-		core.EachInstr(kv, func(in ssa.Instruction) {
-			if c := core.Common(in); c != nil && core.CalleeName(c) == "strings.ToUpper" {
-				upper = true
-			}
-		})
-	}
+	upper := core.NewMay(p, false, func(in ssa.Instruction) bool {
+		c := core.Common(in)
+		return c != nil && core.CalleeName(c) == "strings.ToUpper"
+	}).Fn(qr)
 	if upper {
 		r.OK(R4, "optional keys upper-cased", "", "strings.ToUpper on the key")
 	} else {
